@@ -556,3 +556,385 @@ func init() {
 		Real:   e1Real, Stub: e1Stub,
 		Assume: []string{"fault-free network; subscribers acknowledge promptly", "a publish counts as acknowledged when the publisher observed PUBACK (QoS 1) or PUBCOMP (QoS 2)"}})
 }
+
+// ---------------------------------------------------------------------------------------
+// C07 retained
+
+var c07Topics = []string{"a", "a/b", "a/b/c", "a/c", "b"}
+
+func genC07(r *Rand, tier, profile string) *Case {
+	c := &Case{Profile: "retained", Knobs: map[string]int64{}}
+	nodes := r.PickInt([]int{1, 1, 2, 3})
+	c.Knobs["nodes"] = int64(nodes)
+	gossipKnobs(r, c)
+	topics := append([]string(nil), c07Topics...)
+	if r.Bool(0.3) {
+		for i := 0; i < 3; i++ {
+			topics = append(topics, genTopic(r, false))
+		}
+	}
+	filters := []string{"#", "a/#", "a/+", "+", "+/b", "a/b/#", "+/+/c", "a", "a/b", "b", "a/b/c", "+/#", "a/+/c"}
+	var ts []tstep
+	t := int64(1)
+	nc := r.Range(2, 4)
+	for i := 0; i < nc; i++ {
+		ts = append(ts, tstep{t, Step{K: "connect", C: i, N: r.Intn(nodes), S: fmt.Sprintf("r%d", i), U: "u", T: "p", I: 3000}})
+		t += 7
+	}
+	pid := 1
+	tag := 0
+	rounds := r.Range(1, 3)
+	if tier == "thorough" {
+		rounds = r.Range(1, 6)
+	}
+	for round := 0; round < rounds; round++ {
+		for n := r.Range(1, 4); n > 0; n-- {
+			t += int64(r.Range(2, 60))
+			cl := r.Intn(nc)
+			topic := r.Pick(topics)
+			switch x := r.Intn(10); {
+			case x < 6:
+				tag++
+				ts = append(ts, tstep{t, Step{K: "pub", C: cl, T: topic, S: fmt.Sprintf("r%d", tag), Q: r.Intn(2), F: true, I: int64(pid)}})
+			case x < 8:
+				ts = append(ts, tstep{t, Step{K: "pub", C: cl, T: topic, S: "", Q: r.Intn(2), F: true, I: int64(pid)}})
+			default:
+				tag++
+				ts = append(ts, tstep{t, Step{K: "pub", C: cl, T: topic, S: fmt.Sprintf("p%d", tag), Q: r.Intn(2), I: int64(pid)}})
+			}
+			pid++
+		}
+		t += 30
+		ts = append(ts, tstep{t, Step{K: "settle"}})
+		t += settleDur + 20
+		for n := r.Range(1, 2); n > 0; n-- {
+			cl := r.Intn(nc)
+			f := r.Pick(filters)
+			if r.Bool(0.2) {
+				f = genFilter(r, false)
+			}
+			ts = append(ts, tstep{t, Step{K: "sub", C: cl, L: []string{f}, QL: []int{r.Intn(3)}, I: int64(pid)}})
+			pid++
+			t += 1400
+		}
+	}
+	c.Steps = mergeTimelines(ts)
+	return c
+}
+
+func judgeRetained(w *world) {
+	ref := map[string]string{}
+	endMs := w.nowMs()
+	type window struct{ from, to int64 }
+	windows := map[int][]window{}
+	judged, wild := 0, 0
+	for si, s := range w.c.Steps {
+		switch s.K {
+		case "pub":
+			if !s.F || w.txStamp(si, s.C, tPUBLISH) < 0 {
+				continue
+			}
+			if s.S == "" {
+				delete(ref, s.T)
+			} else {
+				ref[s.T] = s.S
+			}
+		case "sub":
+			cl := w.clients[s.C]
+			st := w.txStamp(si, s.C, tSUBSCRIBE)
+			if st < 0 || !w.clientAliveThrough(cl) {
+				continue
+			}
+			ok, ackAt := w.ackSeen(s.C, cl.epoch, tSUBACK, int(s.I), st)
+			if !ok {
+				continue
+			}
+			from, to := w.stepAt[si], w.stepAt[si]+1300
+			windows[s.C] = append(windows[s.C], window{from, to})
+			f := s.L[0]
+			want := map[string]int{}
+			for topic, payload := range ref {
+				if refMatch(f, topic) {
+					want[topic+"="+payload]++
+				}
+			}
+			got := map[string]int{}
+			for _, ob := range w.obs {
+				if ob.Rx && ob.Client == s.C && ob.P.Type == tPUBLISH && ob.P.Retain && ob.AtMs >= from && ob.AtMs < to {
+					got[ob.P.Topic+"="+tagOf(ob.P.Payload)]++
+					if ob.AtMs < ackAt {
+						w.o.probe("retained_before_suback")
+					}
+				}
+			}
+			// collapse retransmissions (same id) — none expected with prompt acks, but be exact
+			judged++
+			if strings.ContainsAny(f, "+#") {
+				wild++
+			}
+			var missing, extra []string
+			for k, n := range want {
+				if got[k] < n {
+					missing = append(missing, k)
+				}
+			}
+			for k, n := range got {
+				if n > want[k] {
+					extra = append(extra, fmt.Sprintf("%s(x%d)", k, n-want[k]))
+				}
+			}
+			sort.Strings(missing)
+			sort.Strings(extra)
+			if len(missing) > 0 {
+				w.o.violate("C07", "retained-missing", si, endMs, map[string]string{"wildcard": fmt.Sprint(strings.ContainsAny(f, "+#")), "same_node": fmt.Sprint(true)},
+					"client %d subscribed to %q on node %d; the reference holds retained %v for it but %v was not replayed (got %v)", s.C, f, cl.node, keysOfCount(want), missing, keysOfCount(got))
+			}
+			if len(extra) > 0 {
+				w.o.violate("C07", "retained-extra", si, endMs, map[string]string{"wildcard": fmt.Sprint(strings.ContainsAny(f, "+#"))},
+					"client %d subscribed to %q on node %d; it was sent retained %v beyond the reference %v", s.C, f, cl.node, extra, keysOfCount(want))
+			}
+		}
+	}
+	// a retain flag outside a subscribe window means a live copy was flagged
+	for _, ob := range w.obs {
+		if !ob.Rx || ob.P.Type != tPUBLISH || !ob.P.Retain {
+			continue
+		}
+		in := false
+		for _, wd := range windows[ob.Client] {
+			if ob.AtMs >= wd.from && ob.AtMs < wd.to {
+				in = true
+			}
+		}
+		if !in {
+			w.o.violate("C07", "live-copy-flagged-retained", ob.Step, endMs, nil, "client %d received %s with the retain flag set although it had not just subscribed", ob.Client, ob.P)
+			break
+		}
+	}
+	w.o.Stats["subscribes_judged"] += int64(judged)
+	w.o.Nontrivial = judged > 0 && len(ref) > 0
+	_ = wild
+}
+
+func keysOfCount(m map[string]int) []string {
+	var ks []string
+	for k := range m {
+		ks = append(ks, k)
+	}
+	sort.Strings(ks)
+	return ks
+}
+
+func runC07(t *testing.T, c *Case) *Outcome {
+	return runE1(t, c, profileHooks{judge: judgeRetained})
+}
+
+// ---------------------------------------------------------------------------------------
+// C14 xnode: one append per hosting node known to the publisher, none elsewhere
+
+func genC14(r *Rand, tier, profile string) *Case {
+	c := &Case{Profile: "xnode", Knobs: map[string]int64{"snapview": 1}}
+	nodes := r.PickInt([]int{2, 2, 3, 3, 3})
+	c.Knobs["nodes"] = int64(nodes)
+	if r.Bool(0.3) {
+		c.Knobs["maporder"] = int64(1 + r.Intn(1000))
+	}
+	var ts []tstep
+	t := int64(1)
+	ns := r.Range(1, 4)
+	filters := []string{"x/#", "x/+", "x/a", "#", "y/#", "x/a/b", "+/a"}
+	for i := 1; i <= ns; i++ {
+		t += 9
+		ts = append(ts, tstep{t, Step{K: "connect", C: i, N: r.Intn(nodes), S: fmt.Sprintf("s%d", i), U: "u", T: "p", I: 3000}})
+		var fs []string
+		var qs []int
+		for k := r.Range(1, 2); k > 0; k-- {
+			fs = append(fs, r.Pick(filters))
+			qs = append(qs, r.Intn(2))
+		}
+		ts = append(ts, tstep{t + 4, Step{K: "sub", C: i, L: fs, QL: qs, I: 1}})
+	}
+	pubNode := r.Intn(nodes)
+	t += 10
+	ts = append(ts, tstep{t, Step{K: "connect", C: 10, N: pubNode, S: "p0", U: "u", T: "p", I: 3000}})
+	t += 40
+	ts = append(ts, tstep{t, Step{K: "settle"}})
+	t += settleDur + 40
+	// every subset of remote nodes unreachable in turn, each with a PRNG failure mode
+	var remotes []int
+	for n := 0; n < nodes; n++ {
+		if n != pubNode {
+			remotes = append(remotes, n)
+		}
+	}
+	tag := 0
+	topics := []string{"x/a", "x/a/b", "y/q", "x/b"}
+	masks := r.Perm(1 << uint(len(remotes)))
+	for _, mask := range masks {
+		anyBH := false
+		for bi, n := range remotes {
+			if mask&(1<<uint(bi)) != 0 {
+				mode := r.Pick([]string{"fail", "fail", "blackhole", "partition"})
+				if mode == "partition" {
+					ts = append(ts, tstep{t, Step{K: "partition", N: pubNode, I: int64(n)}})
+					anyBH = true
+				} else {
+					ts = append(ts, tstep{t, Step{K: "rpcmode", N: pubNode, I: int64(n), S: mode}})
+					anyBH = anyBH || mode == "blackhole"
+				}
+			}
+		}
+		t += 3
+		for k := r.Range(1, 2); k > 0; k-- {
+			tag++
+			ts = append(ts, tstep{t, Step{K: "pub", C: 10, T: r.Pick(topics), S: fmt.Sprintf("x%d", tag), Q: 1, I: int64(tag)}})
+			t += int64(r.Range(5, 40))
+		}
+		if anyBH {
+			t += 11000
+		} else {
+			t += 400
+		}
+		// lift the faults
+		for _, n := range remotes {
+			ts = append(ts, tstep{t, Step{K: "rpcmode", N: pubNode, I: int64(n), S: "ok"}})
+		}
+		ts = append(ts, tstep{t + 1, Step{K: "heal"}})
+		t += 50
+	}
+	ts = append(ts, tstep{t, Step{K: "sleep", I: 1500}})
+	c.Steps = mergeTimelines(ts)
+	return c
+}
+
+func judgeXnode(w *world) {
+	endMs := w.nowMs()
+	j := w.buildRouteModel()
+	judged := 0
+	for _, p := range j.pubs {
+		if p.client != 10 {
+			continue
+		}
+		pubNode := w.clients[10].node
+		view := w.viewAt[p.step]
+		if view == nil {
+			continue
+		}
+		// D: peers of matching subscriptions in the publisher node's view at the distributing step
+		D := map[int]bool{}
+		full := "_default/" + p.topic
+		for _, l := range view {
+			f := strings.Split(l, "|")
+			if f[0] == "U" && refMatch(f[1], full) {
+				for _, n := range w.nodes {
+					if fmt.Sprint(n.id) == f[3] {
+						D[n.idx] = true
+					}
+				}
+			}
+		}
+		// which destinations did the simulator make unreachable for this publish
+		unreachable := map[int]string{}
+		for _, rp := range w.rpcs {
+			if rp.Tag == p.tag && rp.Src == pubNode && rp.Outcome != "ok" {
+				unreachable[rp.Dst] = rp.Outcome
+			}
+		}
+		// calls still in flight when the run ended did not reach their destination either
+		for _, st := range w.rpcStarted {
+			if st.Tag == p.tag && st.Src == pubNode {
+				done := false
+				for _, rp := range w.rpcs {
+					if rp.Tag == p.tag && rp.Src == st.Src && rp.Dst == st.Dst {
+						done = true
+					}
+				}
+				if !done {
+					unreachable[st.Dst] = "pending"
+				}
+			}
+		}
+		judged++
+		perNode := map[int]int{}
+		for _, a := range w.appends {
+			if a.Tag == p.tag && !a.Err {
+				perNode[a.Node]++
+			}
+		}
+		for _, n := range w.nodes {
+			want := 0
+			if D[n.idx] && unreachable[n.idx] == "" {
+				want = 1
+			}
+			if perNode[n.idx] != want {
+				kind := "append-missing"
+				if perNode[n.idx] > want {
+					kind = "append-extra"
+				}
+				attrs := map[string]string{"dest": "remote", "in_D": fmt.Sprint(D[n.idx]), "other_unreachable": fmt.Sprint(len(unreachable) > 0)}
+				if n.idx == pubNode {
+					attrs["dest"] = "local"
+				}
+				w.o.violate("C14", kind, p.step, endMs, attrs, "publish %s on %q from node %d: node %d's log received it %d times, want %d (hosting nodes known to the publisher: %v, unreachable: %v)", p.tag, p.topic, pubNode, n.idx, perNode[n.idx], want, sortedInts(D), unreachable)
+			}
+		}
+		// acknowledgement iff no destination failed
+		cl := w.clients[10]
+		st := w.txStamp(p.step, 10, tPUBLISH)
+		acked, _ := w.ackSeen(10, cl.epoch, tPUBACK, int(w.c.Steps[p.step].I), st)
+		failedAny := false
+		for n := range D {
+			if unreachable[n] != "" {
+				failedAny = true
+			}
+		}
+		if acked == failedAny {
+			w.o.violate("C14", "ack-mismatch", p.step, endMs, map[string]string{"acked": fmt.Sprint(acked)}, "publish %s: acknowledged=%v although destination failures=%v (%v)", p.tag, acked, failedAny, unreachable)
+		}
+		if failedAny {
+			w.o.probe("publishes_with_unreachable_destination")
+		}
+		// every subscriber gets one copy per matching filter iff its node was served
+		for id, fs := range j.active[p.step] {
+			scl := w.clients[id]
+			if id == 10 || !w.clientAliveThrough(scl) {
+				continue
+			}
+			want := 0
+			for f := range fs {
+				if refMatch(f, p.topic) {
+					want++
+				}
+			}
+			if unreachable[scl.node] != "" || !D[scl.node] {
+				want = 0
+			}
+			got := 0
+			for _, ex := range scl.exch {
+				if ex.tag == p.tag {
+					got++
+				}
+			}
+			if got != want {
+				w.o.violate("C14", "copies-mismatch", p.step, endMs, map[string]string{"more": fmt.Sprint(got > want)}, "publish %s on %q: subscriber %d on node %d (filters %v) received %d copies, want %d (unreachable %v)", p.tag, p.topic, id, scl.node, sortedFilters(fs), got, want, unreachable)
+			}
+		}
+	}
+	w.o.Stats["publishes_judged"] += int64(judged)
+	w.o.Nontrivial = judged > 0
+}
+
+func runC14(t *testing.T, c *Case) *Outcome {
+	return runE1(t, c, profileHooks{judge: judgeXnode})
+}
+
+func init() {
+	register(&Check{ID: "C07", Level: "exploration", Build: "maporder", Gen: genC07, Run: runC07, QuickS: 30, ThoroughS: 480,
+		Rule:   "a case = 1-3 nodes, 2-4 clients, rounds of retained publishes (non-empty / empty payload) and plain publishes over topics with shared prefixes, a settle, then subscriptions with exact and wildcard filters on any node, each followed by a 1.3 s observation window; the replayed set is compared with a reference map; non-trivial when >=1 subscribe judged with a non-empty reference; distinct by hash of the scenario",
+		Real:   e1Real, Stub: e1Stub,
+		Assume: []string{"one filter per SUBSCRIBE so 'once per matching topic' is unambiguous", "retained writes to one topic are ordered by simulated time (the CRDT clock is one strictly increasing stamp); concurrent cross-node writes are not generated"}})
+	register(&Check{ID: "C14", Level: "fault_enumeration", Build: "maporder", Gen: genC14, Run: runC14, QuickS: 30, ThoroughS: 480,
+		Rule:   "a case = 2-3 nodes, a PRNG placement of 1-4 subscribers and one publisher, and for that placement every subset of remote nodes made unreachable in turn (fast failure, black hole or partition per node), 1-2 QoS 1 publishes per subset; appends per node, acknowledgement and copies per subscriber are judged against the publisher node's view; non-trivial when >=1 publish judged; distinct by hash of the scenario",
+		Real:   e1Real, Stub: e1Stub,
+		Assume: []string{"the publisher node's view is its subscription listing at the step that injects the publish", "placements and failure modes are sampled; the subsets of unreachable remote nodes are enumerated completely per placement"}})
+}
